@@ -80,8 +80,20 @@ func generator(c *hx.Ctx, h *hist, cfg genCfg) opGen {
 			}
 			return 0
 		}
+		nPresent := 0
+		for k := range r.keys {
+			if present(k) {
+				nPresent++
+			}
+		}
 		for {
 			w := c.Intn(100)
+			if nPresent == 0 && len(h.KeyTyp) > 0 && c.Intn(6) != 0 {
+				w = cfg.newWeight + c.Intn(30-cfg.newWeight) // nothing to work on yet: mostly import (or create)
+				if cfg.allowNew && c.Intn(2) == 0 {
+					w = 0
+				}
+			}
 			if cfg.allowNew && w < cfg.newWeight {
 				kt := []int{0, 0, 0, 1, 2, 3, 4}[c.Intn(7)]
 				o := &opRec{Kind: "new", Slot: -1, Label: pick(c, labelPool), KeyTyp: kt, Sch: validScheme(c, kt), Pwd: pick(c, pwdPool)}
@@ -133,6 +145,13 @@ func generator(c *hx.Ctx, h *hist, cfg genCfg) opGen {
 				return o
 			case w < 42:
 				sl := anySlot(true)
+				if c.Intn(3) != 0 { // prefer an account that is not the default one (the default cannot be deleted)
+					for k := range r.keys {
+						if md := r.cli.GetAccountMetadataByAddress(r.addr(k)); md != nil && !md.IsDefault {
+							sl = k
+						}
+					}
+				}
 				if c.Intn(8) == 0 {
 					sl = -1
 				}
